@@ -280,7 +280,10 @@ func hostileAlphabet(p *scripted) []hostilePkt {
 		}
 		add("DATA/tsn=expected/mid-half", false, p.dataChunk(peerLast+1, 1, mid, 0, 53, 3, []byte("half-space"), 0))
 	} else {
-		add("DATA/tsn=expected/mid-half", false, p.dataChunk(peerLast+1, 1, seq+1<<15, 0, 53, 3, []byte("half-space"), 0))
+		// (DATA mode: the 16-bit case is guarded relative to the cursor and covered by family Z8;
+		// in a pair behind a skip it would put an unread message half the space behind the new
+		// chunk, which the property excludes - the slot keeps the alphabet's length and repeats ssn-far)
+		add("DATA/tsn=expected/mid-half", false, p.dataChunk(peerLast+1, 1, seq+40000, 0, 53, 3, []byte("far-ssn"), 0))
 	}
 	add("DATA/empty", false, p.dataChunk(peerLast+1, 1, seq, 0, 53, 3, nil, 0))
 	add("DATA/wrongkind", false, p.dataChunk(peerLast+1, 1, seq, 0, 53, 3, []byte("wrong-kind"), map[bool]int{false: 2, true: 1}[p.il]))
